@@ -104,7 +104,7 @@ def run_property(pid, tier, seed):
             # longest-first is unknown; interleave families so that slow ones start early
             # thorough tier: conditions are interleaved over the families (so that a wall budget cuts every family's tail, not whole
             # families) and no condition is started after VERIF_E1_BUDGET seconds; what was not started is reported, never counted
-            budget = float(os.environ.get('VERIF_E1_BUDGET', '0' if tier == 'quick' else str(meta.get('e1_budget_s', 5400)))) or None
+            budget = float(os.environ.get('VERIF_E1_BUDGET', '0' if tier == 'quick' else str(meta.get('e1_budget_s', 3600)))) or None
             if budget:
                 byfam = {}
                 for j in jobs:
